@@ -17,6 +17,7 @@ sed -i "s#/verif/target#$VS/target#g" "$VS/harness/.cargo/config.toml"
 git -C "$WT" checkout -q -- . ; git -C "$WT" checkout -q --detach "$(git -C /repo rev-parse HEAD)" 2>/dev/null
 for MD in "$WT"/out/m*; do
   M=$(basename "$MD")
+  if [ -n "${ONLY:-}" ] && ! echo " $ONLY " | grep -q " $M "; then continue; fi
   git -C "$WT" checkout -q -- .
   git -C "$WT" apply "$MD/patch.diff" || { echo "$ID/$M patch-does-not-apply-on-current-HEAD"; continue; }
   for C in $CHECKS; do
